@@ -86,7 +86,8 @@ func usedBLS(t vlib.TB, f blsFmt, b []byte) {
 			if !o.accepted {
 				return
 			}
-			o.views = [][]byte{p.Bytes(), p.BytesCompressed(), f.double(p)}
+			dbl := f.double(p) // before serialising p itself
+			o.views = [][]byte{dbl, p.Bytes(), p.BytesCompressed()}
 			o.flags = []bool{f.inG(p), p.IsIdentity()}
 			if freshVal != nil {
 				o.flags = append(o.flags, f.isEqual(p, freshVal), f.isEqual(freshVal, p))
